@@ -198,7 +198,12 @@ func (c18Engine) Run(raw json.RawMessage) (interface{}, error) {
 		if got, _ := ctx.Parameters().Int("probe"); got != probe {
 			id = 900002
 		}
-		return c18Snap{toB(ctx.OutputPath()), toB(ctx.JoinPath("x", "../y")), toB(l1), toB(l2), id}
+		joined := ctx.JoinPath("x", "../y")
+		// joining no names at all is the output path itself, at every depth
+		if none := ctx.JoinPath(); none != ctx.OutputPath() {
+			joined = "\x00JoinPath() = " + none
+		}
+		return c18Snap{toB(ctx.OutputPath()), toB(joined), toB(l1), toB(l2), id}
 	}
 	for _, op := range in.Ops {
 		var next pgs.BuildContext
